@@ -23,7 +23,7 @@ MODEL = "run"
 EQB = "obs_eqb"
 SHARD = 1500
 RULE = ("all 8 built-in field types x {empty allowed, not allowed} x length declarations (none, exact, lower-only, "
-        "upper-only, multi-item; exact width for fixed) x 4 allowed-character ranges x formats {delimited, fixed, excel, "
+        "upper-only, multi-item; exact width for fixed) x 4 allowed-character ranges (half of the declarations stand behind the field row, after an earlier wider declaration under which the field's example was validated) x formats {delimited, fixed, excel, "
         "ods} x cells {empty, blanks only (blank, tab, NBSP mixes), a good value, too short, too long, a good value "
         "with one disallowed character at every position}; enumerated completely. Observed: accepted?, and the argument "
         "validated_value received (recorded by wrapping the method). Non-trivial: the cell is non-empty. "
@@ -37,7 +37,7 @@ TYPES = {
     "DateTime": ("DD.MM.YY", "01.02.03"), "Pattern": ("?*", "abc"), "RegEx": (".+", "abc"), "Text": ("", "abc"),
 }
 LENGTHS = [None, [[2, 2]], [[3, 3]], [[2, None]], [[None, 3]], [[1, 2], [8, 8]]]
-ALLOWED = [None, [[32, 126]], [[46, 57], [97, 122]], [[0, 122]]]
+ALLOWED = [None, [[32, 126]], [[46, 57], [97, 122]], [[0, 97]]]    # the last one excludes letters of the good values
 FORMATS = ["delimited", "fixed", "excel", "ods"]
 BLANKS = [" ", "   ", "\t ", "  "]
 
@@ -48,7 +48,16 @@ def build_field(fmt, ftype, empty, length, allowed, late=False):
     rows = [["D", "Format", fmt]]
     if allowed is not None and not late:
         rows.append(["D", "Allowed characters", V.items_text(allowed)])
-    rows.append(["F", "f", "", "X" if empty else "", V.items_text(length), ftype, rule])
+    example = ""
+    if allowed is not None and late:
+        # an earlier, wider declaration under which the field's example is validated; the later one is what counts
+        rows.append(["D", "Allowed characters", "0..."])
+        good = TYPES[ftype][1]
+        fits = (len(good) <= length[0][0]) if fmt == "fixed" else (length is None or any((lo is None or lo <= len(good)) and (hi is None or len(good) <= hi) for lo, hi in length))
+        if ftype == "Decimal" and fmt == "fixed":
+            fits = False
+        example = good if fits else ""
+    rows.append(["F", "f", example, "X" if empty else "", V.items_text(length), ftype, rule])
     if allowed is not None and late:
         rows.append(["D", "Allowed characters", V.items_text(allowed)])
     cid = interface.Cid()
